@@ -1072,8 +1072,7 @@ class Acceptor:
                 self.hit('C04', ('invisible-dispatch', mi.name))
                 occ = mi.queue.pop(0)
                 res = self.step(mi, occ, self.src_of(mi, occ))     # emits no expectation; may defer the occurrence
-                self.post_queued(mi, res)
-                just_handled = isinstance(res, int) and bool(res & T)
+                just_handled = self.post_queued(mi, res)
                 continue
             before = len(mi.queue)
             self.skip_completion_retries()
@@ -1096,15 +1095,13 @@ class Acceptor:
                 if self.mp and self.list_defers(mi, occ.typ, True) and False:
                     pass
                 res = self.step(mi, occ, self.src_of(mi, occ))
-                self.post_queued(mi, res)
-                just_handled = isinstance(res, int) and bool(res & T)
+                just_handled = self.post_queued(mi, res)
             else:
                 self.check_defer_order(mi, occ)
                 mi.deferred.remove(occ)
                 self.hit('C05', ('reoffer', mi.name, tuple(mi.active), occ.typ, len(mi.deferred)))
                 res = self.step(mi, occ, 'direct')
-                self.post_queued(mi, res)
-                just_handled = isinstance(res, int) and bool(res & T)
+                just_handled = self.post_queued(mi, res)
 
     def src_of(self, mi, occ):
         if occ.free:
@@ -1145,7 +1142,11 @@ class Acceptor:
         pass
 
     def post_queued(self, mi, res):
+        """completion round of a dispatched pending occurrence; returns whether a later record may be a completion step
+        re-offered by that round's completion event (the step was handled and the round was not itself aborted)"""
+        ab_before = set(mi.comp_aborted)
         self.completion_round(mi)
+        return isinstance(res, int) and bool(res & T) and not (mi.comp_aborted - ab_before)
 
     def next_pending(self, mi, nxt, allow_queue=True):
         """which pending occurrence of mi does the next observed record dispatch (None: none of them)"""
